@@ -17,7 +17,7 @@ partial : the generator itself is not modelled beyond its decision tables: progr
 """
 import re
 from lib.common import *
-from lib.gen_c import gen_program, directed_programs, Prog
+from lib.gen_c import gen_program, directed_programs, long_programs, Prog
 from lib.oracle import *
 from lib.features import features
 from lib.gentab import run_gentab
@@ -76,8 +76,14 @@ def run(ctx):
             ('ptr', dict(pointers=True, signed=False, shorts=False, bait=True, bait_p=0.15), 200 if quick else 5000, ['-O1'] if quick else ['-O0', '-O1']),
             ('hw', dict(hw=True, signed=False, bait=True, bait_p=0.3), 150 if quick else 4000, ['-O1'] if quick else ['-O0', '-O1']),
             # the fixed enumeration of the bait families: the same programs every run
-            ('directed', None, 0, ['-O0', '-O1'] if quick else ['-O0', '-O1', '-O2', '-O3'])]:
-        progs = {'%s%d' % (label, i): gen_program(rng, opts) for i in range(n)} if label != 'directed' else directed_programs()
+            ('directed', None, 0, ['-O0', '-O1'] if quick else ['-O0', '-O1', '-O2', '-O3']),
+            # the fixed enumeration of branch spans around 128 bytes (repaired branches must still decide as C does)
+            ('long', None, 0, ['-O1'] if quick else ['-O0', '-O1'])]:
+        progs = ({'%s%d' % (label, i): gen_program(rng, opts) for i in range(n)} if label not in ('directed', 'long')
+                 else (directed_programs() if label == 'directed'
+                       # (arrays of 16-bit elements are laid out low bytes first, then high bytes: the harness does not
+                       # map them to C values; those programs are for the range checks of C03 / C13 only)
+                       else {k: v for k, v in long_programs().items() if not k.startswith('L_sarr')}))
         nprog += len(progs)
         for O in levels:
             res = c_vs_machine(progs, [O], 12 if quick else 32, rng)
